@@ -1,8 +1,11 @@
 // C16 harness: drives a real JUnitTestOutput through a private TestRegistry with scripted tests and captures every file
 // written through the PlatformSpecificFOpen/FPuts/FClose seams.
-// Scenario:  <package> <ntests> { <group> <name> <file> <line> <ignored> <nstmts> { :p <text> | :f <file> <line> <msg> | :x <file> <line> <msg> } }
+// Scenario:  <ntests> { <nops> { op } <group> <name> <file> <line> <ignored> <nstmts> { :p <text> | :f <file> <line> <msg> | :x <file> <line> <msg> } } <npost> { op }
 //            :p = TestResult::print(text), :f = addFailure (test continues), :x = fail() (test terminates)
-// Observation: <nfiles> { <filename> <content> }   in the order the files were opened.
+//            op = :k <package> = setPackageName(package) | :n <group> = createFileName(group), the answer is recorded.  The ops in front of a
+//            test are made on the output object just before its printCurrentTestStarted callback (a subclass forwards the callback after
+//            making them), the trailing ones after runAllTests returned.  No op = the package is never set.
+// Observation: <nfiles> { <filename> <content> } in the order the files were opened, <nnames> { <createFileName answer> } in call order.
 #include "CppUTest/TestHarness.h"
 #include "CppUTest/TestRegistry.h"
 #include "CppUTest/TestResult.h"
@@ -14,7 +17,8 @@
 using namespace hl;
 
 struct Stmt { char kind; std::string text, file; size_t line; };
-struct TestDef { std::string group, name, file; size_t line; bool ignored; std::vector<Stmt> body; };
+struct Op { char kind; std::string text; };
+struct TestDef { std::string group, name, file; size_t line; bool ignored; std::vector<Stmt> body; std::vector<Op> ops; };
 
 class ScriptShell : public UtestShell
 {
@@ -52,17 +56,44 @@ static void myClose(PlatformSpecificFile) {}
 static unsigned long myMillis() { return 0; }
 static const char* myTimeString() { return "2000-01-01T00:00:00"; }
 
+static std::vector<std::string> names;
+static void doOps(JUnitTestOutput& out, const std::vector<Op>& ops)
+{
+    for (const Op& o : ops) {
+        if (o.kind == 'k') out.setPackageName(o.text.c_str());
+        else { SimpleString r = out.createFileName(o.text.c_str()); names.push_back(std::string(r.asCharString(), r.size())); }
+    }
+}
+static void readOps(Toks& t, std::vector<Op>& ops)
+{
+    int m = t.n();
+    for (int k = 0; k < m; k++) { Op o; std::string tag = t.sym(); o.kind = tag[0]; t.bytes(o.text); ops.push_back(o); }
+}
+// the output object under test: JUnitTestOutput itself; only the point in time of the outside calls is added
+class OpsJUnitOutput : public JUnitTestOutput
+{
+public:
+    const std::vector<TestDef>* defs; size_t next;
+    explicit OpsJUnitOutput(const std::vector<TestDef>* d) : defs(d), next(0) {}
+    void printCurrentTestStarted(const UtestShell& test) CPPUTEST_OVERRIDE
+    {
+        if (next < defs->size()) doOps(*this, (*defs)[next].ops);
+        next++;
+        JUnitTestOutput::printCurrentTestStarted(test);
+    }
+};
+
 int main()
 {
     PlatformSpecificFOpen = myOpen; PlatformSpecificFPuts = myPuts; PlatformSpecificFClose = myClose;
     GetPlatformSpecificTimeInMillis = myMillis; GetPlatformSpecificTimeString = myTimeString;
     Toks t; Out o;
     while (readline(t)) {
-        std::string pkg; t.bytes(pkg);
         int n = t.n();
         std::vector<TestDef> defs((size_t)n);
         for (int i = 0; i < n; i++) {
             TestDef& d = defs[(size_t)i];
+            readOps(t, d.ops);
             t.bytes(d.group); t.bytes(d.name); t.bytes(d.file); d.line = (size_t)t.u(); d.ignored = t.u() != 0;
             int m = t.n();
             for (int k = 0; k < m; k++) {
@@ -72,20 +103,23 @@ int main()
                 d.body.push_back(s);
             }
         }
-        files.clear();
+        std::vector<Op> post; readOps(t, post);
+        files.clear(); names.clear();
         {
             std::vector<std::unique_ptr<UtestShell> > shells;
             TestRegistry reg;
             for (int i = 0; i < n; i++)
                 shells.emplace_back(defs[(size_t)i].ignored ? (UtestShell*)new IgnoredScriptShell(&defs[(size_t)i]) : (UtestShell*)new ScriptShell(&defs[(size_t)i]));
             for (int i = n - 1; i >= 0; i--) reg.addTest(shells[(size_t)i].get());
-            JUnitTestOutput out;
-            out.setPackageName(pkg.c_str());
+            OpsJUnitOutput out(&defs);
             TestResult result(out);
             reg.runAllTests(result);
+            doOps(out, post);
         }
         o << hx(files.size());
         for (size_t i = 0; i < files.size(); i++) o << hbytes(files[i].first.data(), files[i].first.size()) << hbytes(files[i].second.data(), files[i].second.size());
+        o << hx(names.size());
+        for (size_t i = 0; i < names.size(); i++) o << hbytes(names[i].data(), names[i].size());
         o.flush();
     }
     return 0;
